@@ -109,6 +109,9 @@ func relevant(assumps []*Term, roots []*Term) []*Term {
 			if nonHub == 0 {
 				hit = true // pure axioms and facts about the allocation counters only
 			}
+			if key, ok := hcKeyOf(it.t.id); ok {
+				hit = inSet[key] // typing axiom of one heap version: only with that version
+			}
 			if hit {
 				it.taken = true
 				changed = true
